@@ -23,10 +23,11 @@ type c02cfg struct {
 	changeHosts bool
 	other       bool // a second, unrelated service exists
 	slow        bool // two in-flight requests of different length and slow late arrivals
+	offer       bool // the in-flight request offers a protocol upgrade the target does not take
 }
 
 func (c c02cfg) String() string {
-	return fmt.Sprintf("old=%d new=%d clients=%dx%d inflight=%v redeploys=%d changeHosts=%v other=%v slow=%v", c.nOld, c.nNew, c.clients, c.perClient, c.inflight, c.redeploys, c.changeHosts, c.other, c.slow)
+	return fmt.Sprintf("old=%d new=%d clients=%dx%d inflight=%v redeploys=%d changeHosts=%v other=%v slow=%v offer=%v", c.nOld, c.nNew, c.clients, c.perClient, c.inflight, c.redeploys, c.changeHosts, c.other, c.slow, c.offer)
 }
 
 func tnames(prefix string, n int) []string {
@@ -73,7 +74,11 @@ func c02Scenario(c c02cfg) *Scenario {
 			wg.Add(1)
 			vsched.GoTagged("client", func() {
 				defer wg.Done()
-				w.Do(ReqSpec{ID: "inflight", Host: "a.example.com", Path: "/", Plan: "delay=1s"})
+				spec := ReqSpec{ID: "inflight", Host: "a.example.com", Path: "/", Plan: "delay=1s"}
+				if c.offer {
+					spec.Header = [][2]string{{"Connection", "Upgrade, HTTP2-Settings"}, {"Upgrade", "h2c"}, {"HTTP2-Settings", "AAMAAABkAARAAAAAAAIAAAAA"}}
+				}
+				w.Do(spec)
 			})
 			time.Sleep(100 * time.Millisecond) // it is now waiting for its target
 		}
@@ -191,6 +196,7 @@ func c02Configs(tier string) []c02cfg {
 		cfgs = append(cfgs, c02cfg{nOld: 1, nNew: 1, clients: 1, perClient: 1, redeploys: 1, changeHosts: true})
 		cfgs = append(cfgs, c02cfg{nOld: 1, nNew: 1, clients: 1, perClient: 2, redeploys: 2})
 		cfgs = append(cfgs, c02cfg{nOld: 1, nNew: 1, clients: 1, perClient: 1, redeploys: 1, other: true})
+		cfgs = append(cfgs, c02cfg{nOld: 1, nNew: 1, clients: 1, perClient: 1, redeploys: 1, inflight: true, offer: true})
 		cfgs = append(cfgs, c02cfg{nOld: 1, nNew: 1, clients: 1, perClient: 1, redeploys: 1, slow: true})
 		cfgs = append(cfgs, c02cfg{nOld: 1, nNew: 1, clients: 2, perClient: 1, redeploys: 1, slow: true})
 		return cfgs
